@@ -1781,14 +1781,13 @@ class Rule(metaclass=LogicalType):
                 # constraint = getattr(cls, key)
                 errors = len(context.errors)
                 result = validate(key, constraint, validator, value)
-                if getattr(validator, "__name__", key) == key:
-                    if len(context.errors) == errors:
-                        passed.append((key, constraint, validator))
-                elif result is not value:
-                    # a lax constraint transformed the value: the strict constraints
-                    # that were checked before it must hold for the output as well
+                if result is not value:
+                    # the constraint transformed the value (a lax constraint, or decimal_places completing
+                    # a Decimal): the strict constraints that were checked before it must hold for the output as well
                     for item in passed:
                         validate(*item, result)
+                if getattr(validator, "__name__", key) == key and len(context.errors) == errors:
+                    passed.append((key, constraint, validator))
                 value = result
 
             if cls.contains:
